@@ -66,36 +66,34 @@ Section Names.
   Hypothesis Hok : naming_ok nm.
 
   Lemma name_sound G x t r r' fuel :
-    table_ok nm G -> names_disjoint G -> env_rel nm G r r' ->
+    table_ok nm G -> env_rel nm G r r' ->
     transpile_name G x = Ok t ->
     eval_py r' t fuel = ren_result nm (eval r (Name x) fuel).
   Proof.
-    intros Ht Hd Hr H. unfold transpile_name in H. cbn [eval].
+    intros Ht Hr H. unfold transpile_name in H. cbn [eval].
     destruct (mem_text x (g_loopvars G)) eqn:Hlv.
     - destruct (pyname G NVar x) as [p| |] eqn:Hp; try discriminate.
-      destruct (reserved_var p); try discriminate. injection H as <-.
+      destruct (g_check_reserved G && reserved_var p); try discriminate. injection H as <-.
       apply (pyname_nm nm) in Hp; [|exact Ht]. cbn in Hp. subst p.
       cbn [eval_py]. rewrite (er_vars _ _ _ _ Hr x Hlv).
       destruct (lookup x (vars r)); reflexivity.
-    - destruct (text_eqb x (s2l "self")) eqn:Hs.
-      + injection H as <-. apply teqb_eq in Hs. subst x.
-        change (eval_py r' (PName (s2l "that")) fuel = ren_result nm (eval r (Name (s2l "self")) fuel)).
-        cbn [eval_py eval]. rewrite (er_self _ _ _ _ Hr Hlv).
-        destruct (lookup (s2l "self") (vars r)); reflexivity.
+    - destruct (lookup x (g_args G)) as [pa|] eqn:Ha.
+      + injection H as <-. cbn [eval_py]. rewrite (er_args _ _ _ _ Hr x pa Ha Hlv).
+        destruct (lookup x (vars r)); reflexivity.
       + destruct (mem_text x (g_consts G)) eqn:Hc.
         * destruct (pyname G NConst x) as [p| |] eqn:Hp; try discriminate. injection H as <-.
           apply (pyname_nm nm) in Hp; [|exact Ht]. cbn in Hp. subst p.
-          destruct (er_consts _ _ _ _ Hr x Hc Hlv) as (oid & cl & cfs & v & Hm & Hv & Hl).
+          destruct (er_consts _ _ _ _ Hr x Hc Hlv Ha) as (oid & cl & cfs & v & Hm & Hv & Hl).
           norm_s2l_in Hm. cbn [eval_py]. rewrite Hm, Hl, Hv. reflexivity.
         * destruct (lookup x (g_fns G)) as [tf|] eqn:Hf.
           -- destruct (pyname G NFn x) as [p| |] eqn:Hp; try discriminate. injection H as <-.
              apply (pyname_nm nm) in Hp; [|exact Ht]. cbn in Hp. subst p.
-             cbn [eval_py]. rewrite (er_fns _ _ _ _ Hr x tf Hf Hlv).
+             cbn [eval_py]. rewrite (er_fns _ _ _ _ Hr x tf Hf Hlv Ha).
              destruct (lookup x (vars r)); reflexivity.
           -- destruct (lookup x (g_enums G)) as [ls|] eqn:He; try discriminate.
              destruct (pyname G NEnum x) as [p| |] eqn:Hp; try discriminate. injection H as <-.
              apply (pyname_nm nm) in Hp; [|exact Ht]. cbn in Hp. subst p.
-             destruct (er_enums _ _ _ _ Hr x ls He Hlv) as (oid & cl & efs & v & Hm & Hv & Hl).
+             destruct (er_enums _ _ _ _ Hr x ls He Hlv Ha) as (oid & cl & efs & v & Hm & Hv & Hl).
              norm_s2l_in Hm. cbn [eval_py]. rewrite Hm, Hl, Hv. reflexivity.
   Qed.
 
@@ -104,23 +102,21 @@ Section Names.
     table_ok nm G -> names_disjoint G -> env_rel nm G r r' ->
     lookup f (g_fns G) = Some tf -> transpile_name G f = Ok t ->
     exists p, t = PName p /\
-              lookup p (vars r') = option_map (ren_value nm) (lookup f (vars r)) /\
-              (p = nm_var nm f /\ mem_text f (g_loopvars G) = true \/ p = nm_fn nm f).
+              lookup p (vars r') = option_map (ren_value nm) (lookup f (vars r)).
   Proof.
-    intros Ht Hd Hr Hf H. destruct Hd as (_ & Hdf & _).
-    destruct (Hdf f tf Hf) as [Hns Hnc].
+    intros Ht Hd Hr Hf H. pose proof (Hd f tf Hf) as Hnc.
     unfold transpile_name in H.
     destruct (mem_text f (g_loopvars G)) eqn:Hlv.
     - destruct (pyname G NVar f) as [p| |] eqn:Hp; try discriminate.
-      destruct (reserved_var p); try discriminate. injection H as <-.
+      destruct (g_check_reserved G && reserved_var p); try discriminate. injection H as <-.
       apply (pyname_nm nm) in Hp; [|exact Ht]. cbn in Hp. subst p.
-      exists (nm_var nm f). split; [reflexivity|]. split; [apply (er_vars _ _ _ _ Hr f Hlv)|].
-      left. split; reflexivity.
-    - rewrite (teqb_neq _ _ Hns), Hnc, Hf in H.
-      destruct (pyname G NFn f) as [p| |] eqn:Hp; try discriminate. injection H as <-.
-      apply (pyname_nm nm) in Hp; [|exact Ht]. cbn in Hp. subst p.
-      exists (nm_fn nm f). split; [reflexivity|]. split; [apply (er_fns _ _ _ _ Hr f tf Hf Hlv)|].
-      right. reflexivity.
+      exists (nm_var nm f). split; [reflexivity|]. apply (er_vars _ _ _ _ Hr f Hlv).
+    - destruct (lookup f (g_args G)) as [pa|] eqn:Ha.
+      + injection H as <-. exists pa. split; [reflexivity|]. apply (er_args _ _ _ _ Hr f pa Ha Hlv).
+      + rewrite Hnc, Hf in H.
+        destruct (pyname G NFn f) as [p| |] eqn:Hp; try discriminate. injection H as <-.
+        apply (pyname_nm nm) in Hp; [|exact Ht]. cbn in Hp. subst p.
+        exists (nm_fn nm f). split; [reflexivity|]. apply (er_fns _ _ _ _ Hr f tf Hf Hlv Ha).
   Qed.
 
   Lemma mem_text_cons x y l : mem_text x (y :: l) = text_eqb x y || mem_text x l.
@@ -128,12 +124,11 @@ Section Names.
 
   (** Going under a quantifier keeps the environments related. *)
   Lemma env_rel_push G x vt item r r' :
-    names_disjoint G -> var_ok nm G x -> env_rel nm G r r' ->
+    var_ok nm G x -> env_rel nm G r r' ->
     env_rel nm (push_var G x vt) (bind_var x item r) (bind_var (nm_var nm x) (ren_value nm item) r').
   Proof.
-    intros Hd (Hthat & Htypes & Hconsts & Hfn & Hlen & _) Hr.
-    destruct Hd as (Hdc & Hdf & Hde).
-    constructor; cbn [push_var g_loopvars g_consts g_fns g_enums].
+    intros (Hargs & Htypes & Hconsts & Hfn & Hlen & _) Hr.
+    constructor; cbn [push_var g_loopvars g_consts g_fns g_enums g_args].
     - intros y Hy. rewrite mem_text_cons in Hy.
       destruct (text_eqb y x) eqn:Eyx.
       + apply teqb_eq in Eyx. subst y. rewrite !lookup_bind_same. reflexivity.
@@ -141,22 +136,23 @@ Section Names.
         rewrite (lookup_bind_other x y item r Hne).
         rewrite lookup_bind_other; [apply (er_vars _ _ _ _ Hr y Hy)|].
         intros Heq. apply Hne. apply (inj_var nm Hok). exact Heq.
-    - intros Hs. rewrite mem_text_cons in Hs. apply orb_false_iff in Hs. destruct Hs as [Esx Hs].
-      rewrite (lookup_bind_other x (s2l "self") item r (teqb_false_neq _ _ Esx)).
-      rewrite lookup_bind_other; [apply (er_self _ _ _ _ Hr Hs)|].
-      intros Heq. apply Hthat. symmetry. exact Heq.
-    - intros c Hc Hlv. rewrite mem_text_cons in Hlv. apply orb_false_iff in Hlv. destruct Hlv as [Ecx Hlv].
-      destruct (er_consts _ _ _ _ Hr c Hc Hlv) as (oid & cl & cfs & v & Hm & Hv & Hl).
+    - intros a p Ha Hlv. rewrite mem_text_cons in Hlv. apply orb_false_iff in Hlv. destruct Hlv as [Eax Hlv].
+      pose proof (teqb_false_neq _ _ Eax) as Hne.
+      rewrite (lookup_bind_other x a item r Hne).
+      rewrite lookup_bind_other; [apply (er_args _ _ _ _ Hr a p Ha Hlv)|].
+      intros Heq. apply Hne. symmetry. apply (Hargs a p Ha). symmetry. exact Heq.
+    - intros c Hc Hlv Ha. rewrite mem_text_cons in Hlv. apply orb_false_iff in Hlv. destruct Hlv as [Ecx Hlv].
+      destruct (er_consts _ _ _ _ Hr c Hc Hlv Ha) as (oid & cl & cfs & v & Hm & Hv & Hl).
       exists oid, cl, cfs, v. split; [|split; [|exact Hl]].
       + rewrite lookup_bind_other; [exact Hm|]. intros Heq. apply Hconsts. symmetry. exact Heq.
       + rewrite (lookup_bind_other x c item r (teqb_false_neq _ _ Ecx)). exact Hv.
-    - intros f t Hf Hlv. rewrite mem_text_cons in Hlv. apply orb_false_iff in Hlv. destruct Hlv as [Efx Hlv].
+    - intros f t Hf Hlv Ha. rewrite mem_text_cons in Hlv. apply orb_false_iff in Hlv. destruct Hlv as [Efx Hlv].
       pose proof (teqb_false_neq _ _ Efx) as Hne.
       rewrite (lookup_bind_other x f item r Hne).
-      rewrite lookup_bind_other; [apply (er_fns _ _ _ _ Hr f t Hf Hlv)|].
+      rewrite lookup_bind_other; [apply (er_fns _ _ _ _ Hr f t Hf Hlv Ha)|].
       intros Heq. apply Hne. symmetry. apply (Hfn f t Hf). symmetry. exact Heq.
-    - intros e ls He Hlv. rewrite mem_text_cons in Hlv. apply orb_false_iff in Hlv. destruct Hlv as [Eex Hlv].
-      destruct (er_enums _ _ _ _ Hr e ls He Hlv) as (oid & cl & efs & v & Hm & Hv & Hl).
+    - intros e ls He Hlv Ha. rewrite mem_text_cons in Hlv. apply orb_false_iff in Hlv. destruct Hlv as [Eex Hlv].
+      destruct (er_enums _ _ _ _ Hr e ls He Hlv Ha) as (oid & cl & efs & v & Hm & Hv & Hl).
       exists oid, cl, efs, v. split; [|split; [|exact Hl]].
       + rewrite lookup_bind_other; [exact Hm|]. intros Heq. apply Htypes. symmetry. exact Heq.
       + rewrite (lookup_bind_other x e item r (teqb_false_neq _ _ Eex)). exact Hv.
@@ -253,8 +249,8 @@ Definition ctx_ok (nm : naming) (G : tyenv) : Prop :=
 
 Lemma ctx_ok_push nm G x t : ctx_ok nm G -> var_ok nm G x -> ctx_ok nm (push_var G x t).
 Proof.
-  intros (Ht & Hd & Hf & Hl) (_ & _ & _ & _ & _ & Hrg).
-  split; [exact Ht|]. split; [exact Hd|]. split; [exact Hf|].
+  intros (Ht & Hd & Hf & Hl & Ha) (_ & _ & _ & _ & _ & Hrg).
+  split; [exact Ht|]. split; [exact Hd|]. split; [exact Hf|]. split; [|exact Ha].
   intros y Hy. cbn [push_var g_loopvars] in Hy. cbn [mem_text] in Hy.
   destruct (text_eqb y x) eqn:E.
   - apply teqb_eq in E. subst y. exact Hrg.
@@ -289,17 +285,20 @@ Proof. destruct b; [trivial|]. intros _. exact I. Qed.
 Lemma fn_name_shape nm G f tf t :
   table_ok nm G -> names_disjoint G -> lookup f (g_fns G) = Some tf -> transpile_name G f = Ok t ->
   (t = PName (nm_var nm f) /\ mem_text f (g_loopvars G) = true) \/
-  (t = PName (nm_fn nm f) /\ mem_text f (g_loopvars G) = false).
+  (exists pa, t = PName pa /\ lookup f (g_args G) = Some pa) \/
+  t = PName (nm_fn nm f).
 Proof.
-  intros Ht Hd Hf H. destruct Hd as (_ & Hdf & _). destruct (Hdf f tf Hf) as [Hns Hnc].
+  intros Ht Hd Hf H. pose proof (Hd f tf Hf) as Hnc.
   unfold transpile_name in H.
   destruct (mem_text f (g_loopvars G)) eqn:Hlv.
   - destruct (pyname G NVar f) as [p| |] eqn:Hp; try discriminate.
-    destruct (reserved_var p); try discriminate. injection H as <-.
+    destruct (g_check_reserved G && reserved_var p); try discriminate. injection H as <-.
     apply (pyname_nm nm) in Hp; [|exact Ht]. cbn in Hp. subst p. left. split; reflexivity.
-  - rewrite (teqb_neq _ _ Hns), Hnc, Hf in H.
-    destruct (pyname G NFn f) as [p| |] eqn:Hp; try discriminate. injection H as <-.
-    apply (pyname_nm nm) in Hp; [|exact Ht]. cbn in Hp. subst p. right. split; reflexivity.
+  - destruct (lookup f (g_args G)) as [pa|] eqn:Ha.
+    + injection H as <-. right. left. exists pa. split; reflexivity.
+    + rewrite Hnc, Hf in H.
+      destruct (pyname G NFn f) as [p| |] eqn:Hp; try discriminate. injection H as <-.
+      apply (pyname_nm nm) in Hp; [|exact Ht]. cbn in Hp. subst p. right. right. reflexivity.
 Qed.
 
 Lemma transpile_name_head G x t : transpile_name G x = Ok t -> head_ok t.
@@ -375,11 +374,12 @@ Section Head.
     - (* FunctionCall *)
       intros f args IHargs G e' Hc H. cbn [transpile] in H.
       destruct (seq_map (transpile T G) args) as [args'| |]; try discriminate.
-      destruct Hc as (Ht & Hd & Hrf & Hrl).
+      destruct Hc as (Ht & Hd & Hrf & Hrl & Hra).
       destruct (lookup f (g_fns G)) as [tf|] eqn:Hf.
       + destruct (transpile_name G f) as [f'| |] eqn:Hn; try discriminate. injection H as <-.
-        destruct (fn_name_shape nm G f tf f' Ht Hd Hf Hn) as [[-> Hlv]|[-> Hlv]]; cbn.
+        destruct (fn_name_shape nm G f tf f' Ht Hd Hf Hn) as [[-> Hlv]|[(pa & -> & Hpa)| ->]]; cbn.
         * apply Hrl. exact Hlv.
+        * eapply Hra. exact Hpa.
         * eapply Hrf. exact Hf.
       + destruct (is_len f); try discriminate.
         destruct args' as [|a' [|a2 args']]; try discriminate. injection H as <-. reflexivity.
@@ -462,7 +462,7 @@ Section Sound.
   Lemma tsound_Name x : tsound (Name x).
   Proof.
     intros G e' r r' Hc Hv Hr H. cbn [transpile] in H.
-    destruct Hc as (Ht & Hd & _). apply (name_sound nm G x e' r r' fuel Ht Hd Hr H).
+    destruct Hc as (Ht & _). apply (name_sound nm G x e' r r' fuel Ht Hr H).
   Qed.
 
   Lemma tsound_Constant c : tsound (Constant c).
@@ -691,7 +691,7 @@ Section Sound.
     destruct (lookup f (g_fns G)) as [tf|] eqn:Hf.
     - destruct (transpile_name G f) as [f'| |] eqn:Hn; try discriminate. injection H as <-.
       destruct Hc as (Ht & Hd & _).
-      destruct (fn_name_sound nm G f tf f' r r' Ht Hd Hr Hf Hn) as (p & -> & Hl & _).
+      destruct (fn_name_sound nm G f tf f' r r' Ht Hd Hr Hf Hn) as (p & -> & Hl).
       apply (call_value_sound r r' p f args' args (er_fn_impl _ _ _ _ Hr) Hng Hl Hmap).
     - destruct (is_len f) eqn:Hlen; try discriminate.
       destruct args' as [|a' [|a2 args']]; try discriminate. injection H as <-.
@@ -732,7 +732,7 @@ Section Sound.
     intros Ht H. unfold transpile_name in H. cbn [push_var g_loopvars g_naming mem_text] in H.
     rewrite teqb_refl in H. cbn [orb] in H.
     destruct (pyname (push_var G x t) NVar x) as [p| |] eqn:Hp; try discriminate.
-    destruct (reserved_var p); try discriminate. injection H as <-.
+    destruct (g_check_reserved (push_var G x t) && reserved_var p); try discriminate. injection H as <-.
     apply (pyname_nm nm) in Hp; [|exact Ht]. cbn in Hp. subst p. reflexivity.
   Qed.
 
@@ -762,7 +762,7 @@ Section Sound.
     intros IHc Hc Hx Hv Hr Ec. cbv zeta. rewrite map_map.
     rewrite (map_ext _ (fun item => ren_result nm (eval (bind_var x item r) c fuel))).
     2:{ intros item. apply (IHc (push_var G x vt) c' _ _ (ctx_ok_push nm G x vt Hc Hx)); [exact Hv| |exact Ec].
-        apply (env_rel_push nm Hok G x vt item r r'); [apply Hc | exact Hx | exact Hr]. }
+        apply (env_rel_push nm Hok G x vt item r r'); [exact Hx | exact Hr]. }
     rewrite <- (map_map (fun it => eval (bind_var x it r) c fuel) (ren_result nm)).
     destruct is_all; [apply ren_all_results | apply ren_any_results].
   Qed.
@@ -1043,24 +1043,26 @@ Qed.
 
 Lemma env_rel_rename G r : env_fits G r -> env_rel nm_id G r (rename G r).
 Proof.
-  intros (Hlv & (vs & Hself) & Hconsts & Henums & Hfns).
+  intros (Hlv & Hargs & (vs & Hself) & Hconsts & Henums & Hfns).
   assert (Hother : forall y, y <> s2l "that" -> y <> s2l "aas_types" -> y <> s2l "aas_constants" ->
                    lookup y (vars (rename G r)) = lookup y (vars r)).
   { intros y H1 H2 H3. unfold rename. cbn [vars]. rewrite Hself. cbn [app lookup].
     rewrite (teqb_neq _ _ H1), (teqb_neq _ _ H2), (teqb_neq _ _ H3). reflexivity. }
   constructor.
   - intros x Hx. rewrite Hlv in Hx. discriminate.
-  - intros _. unfold rename. cbn [vars]. rewrite Hself. cbn [app lookup].
+  - intros a p Ha _. rewrite Hargs in Ha. cbn [lookup] in Ha.
+    destruct (text_eqb a (s2l "self")) eqn:Ea; [|discriminate]. injection Ha as <-.
+    apply teqb_eq in Ea. subst a. unfold rename. cbn [vars]. rewrite Hself. cbn [app lookup].
     rewrite teqb_refl. rewrite option_map_ren_id. reflexivity.
-  - intros c Hc _. destruct (Hconsts c Hc) as [v Hv].
+  - intros c Hc _ _. destruct (Hconsts c Hc) as [v Hv].
     exists 0%nat, (s2l "module"),
       (flat_map (fun n => match lookup n (vars r) with Some w => [(n, w)] | None => [] end) (g_consts G)), v.
     split; [|split; [exact Hv|]].
     + unfold rename. cbn [vars]. rewrite Hself. reflexivity.
     + rewrite ren_value_id. apply module_lookup; [apply mem_text_In'; exact Hc | exact Hv].
-  - intros f t Hf _. destruct (Hfns f t Hf) as (H1 & H2 & H3).
+  - intros f t Hf _ _. destruct (Hfns f t Hf) as (H1 & H2 & H3).
     cbn [nm_id nm_fn]. rewrite (Hother f H1 H2 H3), option_map_ren_id. reflexivity.
-  - intros e ls He _. destruct (Henums e ls He) as [v Hv].
+  - intros e ls He _ _. destruct (Henums e ls He) as [v Hv].
     exists 0%nat, (s2l "module"),
       (flat_map (fun n => match lookup n (vars r) with Some w => [(n, w)] | None => [] end) (map fst (g_enums G))), v.
     split; [|split; [exact Hv|]].
